@@ -3365,6 +3365,12 @@ func (a *Association) createForwardTSN() *chunkForwardTSN {
 			break
 		}
 
+		// RFC 3758 Sec 3.2: the Stream/Sequence pairs report skipped ORDERED messages only.
+		// An unordered chunk carries the SSN of the next ordered message, which is not skipped.
+		if c.unordered {
+			continue
+		}
+
 		ssn, ok := streamMap[c.streamIdentifier]
 		if !ok {
 			streamMap[c.streamIdentifier] = c.streamSequenceNumber
